@@ -1,9 +1,35 @@
-"""C12 - configuration changes performance, never results."""
-import _dbprop, dbcheck
+"""C12 - configuration changes performance, never results.
+(M) Cache.tla: bounded frame set, pins, clock eviction of free frames with write-back, checkpoint; every page reads as the
+    last value written whatever the capacity and the interleaving (Coherent), the cache never exceeds its capacity; writing
+    a victim to another page's place (the seeded change C12-m1) and dropping a dirty victim must be refuted.
+(T) the same statement sequence under a grid of configurations (page size 4-64 KiB, cache 6-10000 pages, pool 1-8, min keys
+    3-8, siblings 1-3), with and without checkpoints; every trace is validated against Db.tla, which has no configuration
+    variable: identical admissible results for every configuration."""
+import os
+import _dbprop, dbcheck, vlib
+from vlib import ToolError, run_tlc
 PROP = "C12"
+
+
+def _cache(c, tier):
+    r = run_tlc("Cache", os.path.join(vlib.SPEC, "MC_Cache.cfg"), workers=4)
+    if not r.ok:
+        raise ToolError("Cache.tla violates %s" % r.violated)
+    c.add("states", r.distinct)
+    c.add("transitions", r.generated)
+    for cfg in ("MC_Cache_dev_offset.cfg", "MC_Cache_dev_drop.cfg"):
+        d = run_tlc("Cache", os.path.join(vlib.SPEC, cfg), workers=2)
+        if d.violated != "Coherent":
+            raise ToolError("%s should violate Coherent" % cfg)
+    c.cov["design_mutations_refuted"] = ["EvictWritesElsewhere", "EvictDropsDirty"]
+
+
 def run(tier, seed):
     return _dbprop.run(PROP, tier, seed, [('cfg', 16, 160)],
-        ['the specification has no configuration variable: the same statement sequence (workload seed) is validated with the same admissible results under every configuration of the grid (page size, cache size, pool size, min keys, siblings), with and without checkpoints', '4/8 KiB pages only with a one-table catalog (finding MetaTableSplitCorruptsCatalog)'],
-        '8 configurations per workload; configs = (workload, configuration) runs validated', mc=None, nontrivial_key='configs')
+        ['the specification of the store has no configuration variable: the same statement sequence (workload seed) is validated with the same admissible results under every configuration of the grid (page size, cache size, pool size, min keys, siblings), with and without checkpoints',
+         'with caches below 32 pages multi-row UPDATE / DELETE are left out (finding SmallCacheFailsStatements: the statement fails when every frame is pinned - Cache.tla models that as a clean failure)'],
+        '8 configurations per workload; configs = (workload, configuration) runs validated', mc=None, nontrivial_key='configs', pre=_cache)
+
+
 def replay(path, seed):
     return dbcheck.replay_trace(PROP, path, seed)
